@@ -19,10 +19,12 @@ if __name__ == '__main__':
                 'unknown coding, corrupt gzip, unknown and malformed paths) against the real server thread')
     c.run('C13.dechunk_streams', 'B', wrap(replays_C13.dechunk, 38), replay_fn='C13:dechunk',
           bound='all truncations of a valid 3-chunk body + 8 malformed streams, 2 s time limit each')
-    c.run('C13.provider_paths', 'B', wrap(replays_C13.provider_paths, 13), replay_fn='C13:provider_paths',
-          bound='13 unusual request paths (percent-encoded non-latin-1, CR/LF, NUL, surplus / empty segments) with a valid GetMdib body against a real provider')
+    c.run('C13.provider_paths', 'B', wrap(replays_C13.provider_paths, 17), replay_fn='C13:provider_paths',
+          bound='17 unusual request paths (raw control characters, percent-encoded non-latin-1, CR/LF, NUL, surplus / empty segments) with a valid GetMdib body against a real provider')
     c.run('C13.open_connection_framing', 'B', wrap(replays_C13.open_connection_framing, 8), replay_fn='C13:open_connection_framing',
           bound='8 malformed / absent length framings (negative, signed, empty, duplicate Content-Length, none) sent over a connection the client keeps open, 4 s limit each, real provider')
+    c.run('C13.fault_text_always_serializable', 'B', wrap(replays_C13.fault_text, 0x110000), replay_fn='C13:fault_text',
+          bound='Fault.add_reason_text on every one of the 1114112 Unicode code points (exhaustive for a per-character function): result accepted by lxml, legal characters unchanged')
     from native import C09_native
     c.run('C13.full_operation_queue', 'B', C09_native.full_queue,
           bound='one set-request against a full operation worker queue (10 entries), 4 s limit')
